@@ -1063,6 +1063,9 @@ func (x *Exec) specQuant(env *SpecEnv, n *EQuant) TV {
 			switch {
 			case !own:
 				env.state().Assume(e)
+			case x.validFacts[e.S]:
+				// an instance of a universally valid schema: true for every value of the bound
+				// variables, hence neither an antecedent nor a conjunct
 			case !n.Forall:
 				hoist = append(hoist, e)
 			default:
@@ -1087,6 +1090,46 @@ func (x *Exec) specQuant(env *SpecEnv, n *EQuant) TV {
 			env.state().Assume(&Term{S: txt, Sort: SBool})
 		}
 		extra = keep
+	}
+	// Definitions "(= c t)" of symbols named while evaluating the body, whose term t depends on the
+	// bound variables, are not facts about a global constant: c stands for t. They are substituted
+	// into the body (and into the other kept facts), newest first, instead of being conjoined -
+	// conjoined under an existential they would let the refutation pick c freely.
+	if len(extra) > 0 {
+		type def struct{ sym, rhs string }
+		var defs []def
+		var rest []*Term
+		for _, e := range extra { // extra is newest first
+			if e.Def != "" && strings.HasPrefix(e.S, "(= "+e.Def+" ") {
+				dependsOnBound := false
+				for _, b := range bnames {
+					if strings.Contains(e.S, b) {
+						dependsOnBound = true
+						break
+					}
+				}
+				if dependsOnBound {
+					defs = append(defs, def{e.Def, e.S[len("(= "+e.Def+" ") : len(e.S)-1]})
+					continue
+				}
+			}
+			rest = append(rest, e)
+		}
+		if len(defs) > 0 {
+			subst := func(t string) string {
+				for _, d := range defs {
+					if strings.Contains(t, d.sym) {
+						t = strings.ReplaceAll(t, d.sym, d.rhs)
+					}
+				}
+				return t
+			}
+			body = &Term{S: subst(body.S), Sort: SBool}
+			for i, e := range rest {
+				rest[i] = &Term{S: subst(e.S), Sort: SBool, Def: e.Def}
+			}
+		}
+		extra = rest
 	}
 	if len(extra) > 0 {
 		if n.Forall {
@@ -1385,6 +1428,8 @@ func (x *Exec) specCall(env *SpecEnv, n *ECall) TV {
 			off = 1
 		}
 		return TV{rec.args[i], rec.sig.Params().At(i - off).Type()}
+	case "holds": // holds(token): the typestate token is held (see zz_token.go)
+		return mkSpecBool(x.tokenValue(st, nameArg(n.Args[0])))
 	case "sent":
 		s := nameArg(n.Args[0])
 		res := TFalse
